@@ -163,6 +163,36 @@ def _leaf_unit(unit):
     return acc
 
 
+KEYWORDS = ("add", "sub", "mul", "div", "mod", "and", "or", "eq", "ne", "lt", "le", "gt", "ge", "in", "not", "any", "all", "has")
+# {L}: the identifier as an operand (bare and parenthesised), {N}: the bare name
+KW_TEMPLATES = (
+    "{L}", "{L} eq 1", "1 eq {L}", "1 eq {L} and b", "{L} and b", "b or {L}", "-{L} eq 1", "- {L} eq 1", "-{L}", "not {L}", "not {L} eq 1", "not -{L} eq 1",
+    "(1,{L} eq 2)", "(1, {L} eq 2)", "({L} eq 2,1)", "({L},)", "({L}, {L})", "x/any(v:{L} eq 1)", "x/any(v: {L} eq 1)", "x/all(v:v/p eq {L} and b)",
+    "ns.f(1,{L} eq 2)", "ns.f(1, {L} eq 2)", "ns.f({L}, {L})", "ns.f(p={L} eq 2)", "ns.f(p={L},q={L})", "ns.f({N}=1)", "concat({L}, {L}) eq {L}",
+    "{L} in ({L},)", "{L} in ({L}, {L})", "{L} in (1,{L})", "a/{N} eq 1", "(a/{N}) eq 1", "(a/{N}) eq 1 and b", "a/{N}/c eq 1", "{N}/b eq 1", "({N}/b) eq 1",
+    "x/any({N}:{N}/p eq 1)", "x/any({N}: {N} eq 1)", "{N}/any(v:v eq 1)", "a/{N}/any()", "{L} add {L} eq {L}", "{L} {N} {L}", "({L} {N} {L}) {N} {L}",
+    "{L} eq 1 or {L} eq 2", "not {L} and not {L}", "-{L} sub -{L} eq 0", "ns.{N}(1) eq 1", "{N}.f(1) eq 1", "{N}.{N} eq 1",
+)
+
+
+def keyword_texts():
+    for kw in KEYWORDS:
+        for name in (kw, kw.upper(), kw.capitalize()):
+            for tpl in KW_TEMPLATES:
+                for operand in (name, "(" + name + ")"):
+                    yield tpl.replace("{L}", operand).replace("{N}", name)
+                    if "{L}" not in tpl:
+                        break
+
+
+def _kw_unit(texts):
+    acc = Acc()
+    for text in texts:
+        acc.count("states")
+        roundtrip_case(text, acc, "kwident")
+    return acc
+
+
 def run(ctx):
     kmax = 3 if ctx.quick else 4
     styles = ("min", "full") if ctx.quick else ("min", "full", "redundant")
@@ -175,6 +205,11 @@ def run(ctx):
     leaves = compound_leaves()
     ctx.pmap(_leaf_unit, [leaves[i::16] for i in range(16)])
     ctx.layer("compound_leaves", leaves=len(leaves), contexts=8, exhaustive=True)
+    kw = sorted(set(keyword_texts()))
+    ctx.pmap(_kw_unit, [kw[i::16] for i in range(16)])
+    ctx.layer("keyword-named-identifiers", names=3 * len(KEYWORDS), templates=len(KW_TEMPLATES), texts=len(kw), exhaustive=True,
+              note="identifiers, path segments, lambda variables, namespaces and parameter names spelled like an operator keyword, in every "
+                   "position where the renderer emits a blank before or after them; texts the parser rejects are outside the quantifier")
     # history layer: one shared renderer/parser, serially, all leaves and all k<=1 trees forward then reverse
     hist = list(leaves) + [t for si in range(len(T.shapes(1))) for t in T.op_trees_of_shape(T.shapes(1)[si], offset=si)]
     for t in hist + hist[::-1]:
